@@ -18,12 +18,18 @@ Three oracles evaluated after EVERY operation of a history on `obj.xs`:
 
 See DESIGN.md section 4 / C04.
 """
+import atexit
 import operator
+import os
+import pathlib
+import shutil
 import sys
+import tempfile
 
 from traits.api import (
     HasTraits, List, Dict, Set, Int, Float, Str, Range, Enum, Instance, Either,
     Tuple, CInt, TraitError, push_exception_handler,
+    BaseInt, BaseStr, BaseFloat, BaseCInt, BaseBool, BaseBytes, File, Directory, String,
 )
 from traits.observation.api import (
     push_exception_handler as obs_push_exception_handler,
@@ -52,7 +58,14 @@ META = {
              "the constructor `Cls(xs=v)`; the owning class comes in four flavours, rotated over the "
              "histories and grid cases: plain, `__len__` = size of its container (owner falsy while empty, "
              "incl. during construction), `__bool__` False until a flag is flipped at random points, and "
-             "value-based `__eq__`/`__hash__` with a second, equal owner kept around; a separate stratum draws the set "
+             "value-based `__eq__`/`__hash__` with a second, equal owner kept around; a stratum of its own (`r:*`, `rgrid:*`; same operations, "
+             "routes and owner flavours) uses ~55 configurations whose inner trait is a value-dependent "
+             "refinement of a Base scalar trait: user-defined TraitType subclasses (OddInt(BaseInt) of the "
+             "manual, NonEmptyStr(BaseStr), UnitFloat(BaseFloat), LowerStr(BaseStr) which converts, "
+             "EvenCInt(BaseCInt), Agreed(BaseBool), ShortBytes(BaseBytes)) and the library's "
+             "File(exists=True), Directory(exists=True), String(minlen,maxlen), alone, inside Tuple/Either "
+             "and in nested List/Dict/Set, with argument pools rich in non-valid values of exactly the base "
+             "Python type; a separate stratum draws the set "
              "intersection operators with operands equal to, but not identical with, members (it hits "
              "an open finding and would otherwise truncate the main histories). A case is non-trivial when the "
              "operation changed the value, raised, or delivered a notification; distinct_nontrivial "
@@ -73,7 +86,18 @@ META = {
                   "falsy_list_ops": 9000, "falsy_dict_ops": 4000, "falsy_set_ops": 2500,
                   "falsy_owner_rejections": 5000, "truthy_flavoured_ops": 24000,
                   "equal_owner_ops": 10000, "equal_owner_foreign_args": 250, "construct_ops": 2500,
-                  "construct_rejections": 900, "falsy_construct_ops": 1300, "built_with_keyword": 4500},
+                  "construct_rejections": 900, "falsy_construct_ops": 1300, "built_with_keyword": 4500,
+                  # stratum: value-dependent refinements of the Base scalar traits as inner traits
+                  "refined_history_ops": 24000, "refined_grid_cases": 4000, "refined_list_ops": 15000,
+                  "refined_dict_ops": 5500, "refined_set_ops": 4000, "refined_nested_ops": 1400,
+                  "refined_assign_ops": 2000, "refined_construct_ops": 800,
+                  "refined_rejections_checked": 8500, "refined_ops_succeeded": 15000,
+                  "refined_direction_checked": 8000, "refined_convertible_items_stored": 1600,
+                  "refined_elements_walked": 75000, "refined_exact_type_trap_ops": 3000,
+                  "refined_exact_type_trap_rejections": 2800, "refined_exact_type_trap_list_ops": 1500,
+                  "refined_exact_type_trap_dict_ops": 900, "refined_exact_type_trap_set_ops": 250,
+                  "refined_exact_type_trap_nested_ops": 150, "refined_exact_type_trap_assign": 110,
+                  "refined_exact_type_trap_construct": 50},
         "thorough": {"evaluations": 2000000, "rejections_checked": 600000, "direction_checked": 500000,
                      "length_direction_checked": 150000, "ops_succeeded": 1000000,
                      "notifications_seen": 3000000, "notif_static": 600000, "notif_otc": 600000,
@@ -89,7 +113,17 @@ META = {
                      "truthy_flavoured_ops": 480000, "equal_owner_ops": 200000,
                      "equal_owner_foreign_args": 5000, "construct_ops": 50000,
                      "construct_rejections": 18000, "falsy_construct_ops": 26000,
-                     "built_with_keyword": 40000},
+                     "built_with_keyword": 40000,
+                     "refined_history_ops": 288000, "refined_grid_cases": 4000, "refined_list_ops": 180000,
+                     "refined_dict_ops": 66000, "refined_set_ops": 48000, "refined_nested_ops": 16800,
+                     "refined_assign_ops": 24000, "refined_construct_ops": 9600,
+                     "refined_rejections_checked": 102000, "refined_ops_succeeded": 180000,
+                     "refined_direction_checked": 96000, "refined_convertible_items_stored": 19200,
+                     "refined_elements_walked": 900000, "refined_exact_type_trap_ops": 36000,
+                     "refined_exact_type_trap_rejections": 33600, "refined_exact_type_trap_list_ops": 18000,
+                     "refined_exact_type_trap_dict_ops": 10800, "refined_exact_type_trap_set_ops": 3600,
+                     "refined_exact_type_trap_nested_ops": 2160, "refined_exact_type_trap_assign": 1560,
+                     "refined_exact_type_trap_construct": 720},
     },
     "exhaustive_parts": ("list grid: every list mutator x every length in minlen..min(maxlen,4) x "
                          "argument lists of 0..3 items with an invalid item at each position, for every "
@@ -188,6 +222,95 @@ TUP = ("Tuple", INT, STR)
 CINT = ("CInt",)
 
 
+# refinements of the Base scalar traits whose validate depends on the VALUE
+ODD = ("Odd",)
+NEST = ("NonEmpty",)
+UNIT = ("Unit",)
+LOWER = ("Lower",)
+EVENC = ("EvenC",)
+AGREED = ("Agreed",)
+SBYTES = ("SBytes",)
+FILE = ("File",)
+DIR = ("Dir",)
+STRING = ("String", 1, 3)
+# the Python type a value must have exactly for the Base trait to take it as is
+BASE_TYPE = {"Odd": int, "NonEmpty": str, "Unit": float, "Lower": str, "EvenC": int, "Agreed": bool,
+             "SBytes": bytes, "File": str, "Dir": str, "String": str}
+
+
+class OddInt(BaseInt):
+    """The user manual's example of a trait type subclass."""
+    default_value = 1
+    info_text = "an odd integer"
+
+    def validate(self, object, name, value):
+        value = super().validate(object, name, value)
+        if (value % 2) == 1:
+            return value
+        self.error(object, name, value)
+
+
+class NonEmptyStr(BaseStr):
+    default_value = "a"
+    info_text = "a non-empty string"
+
+    def validate(self, object, name, value):
+        value = super().validate(object, name, value)
+        if len(value) > 0:
+            return value
+        self.error(object, name, value)
+
+
+class UnitFloat(BaseFloat):
+    default_value = 0.5
+    info_text = "a float in [0, 1]"
+
+    def validate(self, object, name, value):
+        value = super().validate(object, name, value)
+        if 0.0 <= value <= 1.0:
+            return value
+        self.error(object, name, value)
+
+
+class LowerStr(BaseStr):
+    """Value-dependent CONVERSION: the stored string is lower case."""
+    info_text = "a string (stored in lower case)"
+
+    def validate(self, object, name, value):
+        return super().validate(object, name, value).lower()
+
+
+class EvenCInt(BaseCInt):
+    info_text = "something int() turns into an even integer"
+
+    def validate(self, object, name, value):
+        value = super().validate(object, name, value)
+        if (value % 2) == 0:
+            return value
+        self.error(object, name, value)
+
+
+class Agreed(BaseBool):
+    default_value = True
+    info_text = "True"
+
+    def validate(self, object, name, value):
+        value = super().validate(object, name, value)
+        if value is True:
+            return value
+        self.error(object, name, value)
+
+
+class ShortBytes(BaseBytes):
+    info_text = "a bytes string of at most 3 bytes"
+
+    def validate(self, object, name, value):
+        value = super().validate(object, name, value)
+        if len(value) <= 3:
+            return value
+        self.error(object, name, value)
+
+
 def L(inner, lo=0, hi=INF):
     return ("List", inner, lo, hi)
 
@@ -220,6 +343,10 @@ def spec_name(spec):
         return "Range(%d,%d)" % spec[1:]
     if t == "Instance":
         return "Instance(X%s)" % (",none" if spec[1] else "")
+    if t == "String":
+        return "String(%d,%d)" % spec[1:]
+    if t in ("File", "Dir"):
+        return t + "(exists)"
     return t
 
 
@@ -244,6 +371,26 @@ def build(spec, default=None):
         return Tuple(*[build(s) for s in spec[1:]])
     if t == "CInt":
         return CInt()
+    if t == "Odd":
+        return OddInt()
+    if t == "NonEmpty":
+        return NonEmptyStr()
+    if t == "Unit":
+        return UnitFloat()
+    if t == "Lower":
+        return LowerStr()
+    if t == "EvenC":
+        return EvenCInt()
+    if t == "Agreed":
+        return Agreed()
+    if t == "SBytes":
+        return ShortBytes()
+    if t == "File":
+        return File(exists=True)
+    if t == "Dir":
+        return Directory(exists=True)
+    if t == "String":
+        return String(minlen=spec[1], maxlen=spec[2])
     if t == "List":
         kw = {}
         if spec[2] != 0:
@@ -325,6 +472,49 @@ def convert(spec, v):
             return int(v)
         except (TypeError, ValueError, OverflowError):
             raise Reject()
+    if t == "Odd":
+        c = convert(INT, v)
+        if c % 2 == 1:
+            return c
+        raise Reject()
+    if t == "NonEmpty":
+        if isinstance(v, str) and len(v) > 0:
+            return v
+        raise Reject()
+    if t == "Unit":
+        c = convert(FLOAT, v)
+        if 0.0 <= c <= 1.0:
+            return c
+        raise Reject()
+    if t == "Lower":
+        if isinstance(v, str):
+            return v.lower()
+        raise Reject()
+    if t == "EvenC":
+        c = convert(CINT, v)
+        if c % 2 == 0:
+            return c
+        raise Reject()
+    if t == "Agreed":
+        if v is True:
+            return v
+        raise Reject()
+    if t == "SBytes":
+        if isinstance(v, bytes) and len(v) <= 3:
+            return v
+        raise Reject()
+    if t == "File" or t == "Dir":
+        # "accepts strings and os.PathLike objects, converting the latter to
+        # the corresponding string"; exists=True: must name an existing file/dir
+        if isinstance(v, os.PathLike):
+            v = os.fspath(v)
+        if isinstance(v, str) and (os.path.isfile(v) if t == "File" else os.path.isdir(v)):
+            return v
+        raise Reject()
+    if t == "String":
+        if isinstance(v, str) and spec[1] <= len(v) <= spec[2]:
+            return v
+        raise Reject()
     if t == "List":
         if isinstance(v, list) and spec[2] <= len(v) <= spec[3]:
             return [convert(spec[1], x) for x in v]
@@ -382,6 +572,26 @@ def in_domain(spec, e, owner=None):
     if t == "Tuple":
         return (type(e) is tuple and len(e) == len(spec) - 1
                 and all(in_domain(s, x) for s, x in zip(spec[1:], e)))
+    if t == "Odd":
+        return type(e) is int and e % 2 == 1
+    if t == "NonEmpty":
+        return type(e) is str and e != ""
+    if t == "Unit":
+        return type(e) is float and 0.0 <= e <= 1.0
+    if t == "Lower":
+        return type(e) is str and not any(c.isupper() for c in e)
+    if t == "EvenC":
+        return type(e) is int and e % 2 == 0
+    if t == "Agreed":
+        return e is True
+    if t == "SBytes":
+        return type(e) is bytes and len(e) <= 3
+    if t == "File":
+        return type(e) is str and os.path.isfile(e)
+    if t == "Dir":
+        return type(e) is str and os.path.isdir(e)
+    if t == "String":
+        return type(e) is str and spec[1] <= len(e) <= spec[2]
     try:
         walk_container(spec, e, owner, "")
         return True
@@ -534,6 +744,66 @@ def _pools():
 
 POOLS = _pools()
 VALID, CONV, INVALID = "valid", "conv", "invalid"
+FS = {}
+
+
+def setup_refined_pools():
+    """Pools of the value-dependent refinements.  The invalid pools are rich in
+    values of EXACTLY the base Python type (an even int for OddInt, '' for
+    NonEmptyStr, the name of a missing file for File(exists=True))."""
+    if "Odd" in POOLS:
+        return
+    root = tempfile.mkdtemp(prefix="c04-fs-")
+    atexit.register(shutil.rmtree, root, True)
+    f1, f2 = os.path.join(root, "f1.txt"), os.path.join(root, "f2.dat")
+    d1, d2 = os.path.join(root, "d1"), os.path.join(root, "d2")
+    for f in (f1, f2):
+        with open(f, "w") as fh:
+            fh.write("x")
+    for d in (d1, d2):
+        os.mkdir(d)
+    missing, missing2 = os.path.join(root, "missing.txt"), os.path.join(root, "nodir")
+    FS.update(root=root, f1=f1, d1=d1)
+    np_odd = [np.int64(3), np.uint8(7)] if np is not None else []
+    POOLS.update({
+        "Odd": ([1, 3, 5, 7, -3, 2 ** 40 + 1], [True, Idx(5), Idx(-1)] + np_odd,
+                [0, 2, 4, 6, -2, 2 ** 40, 4, 2, False, Idx(4), "x", "3", 2.5, None, [1], 1.0]),
+        "NonEmpty": (["a", "b", "ab", "xyz"], [], ["", "", "", "".join([]), 1, None, b"a", ["a"]]),
+        "Unit": ([0.0, 0.5, 1.0, 0.25, 1e-300], [0, 1, True, Flt(0.5)],
+                 [1.5, -0.5, 2.0, float("inf"), NAN, -1e-300, 3, Flt(2.5), "x", None, [0.5]]),
+        "Lower": (["a", "ab", "", "xyz", "a1"], ["AB", "Ab", "C", "xyZ"], [1, None, b"a", ["a"], 2.5]),
+        "EvenC": ([0, 2, 4, -4, 6], ["4", 2.5, " 8 ", False, "-2"],
+                  [1, 3, 5, -3, 7, "3", 3.7, True, "x", None, [2]]),
+        "Agreed": ([True], [], [False, False, False, 1, 0, "True", None, [True]]),
+        "SBytes": ([b"", b"a", b"ab", b"abc"], [], [b"abcd", b"toolong", b"abcde", "a", None, [b"a"], 5]),
+        "File": ([f1, f2], [pathlib.Path(f1), pathlib.Path(f2)],
+                 [missing, missing2, d1, "", missing + "x", 5, None, [f1], pathlib.Path(missing), b"x"]),
+        "Dir": ([d1, d2], [pathlib.Path(d1), pathlib.Path(d2)],
+                [missing2, missing, f1, "", missing2 + "x", 5, None, [d1], pathlib.Path(missing2)]),
+        "String": (["a", "ab", "abc", "xyz"], [], ["", "abcd", "toolong", "", None, ["a"], b"a"]),
+    })
+
+
+def exact_type_trap(spec, v):
+    """Does the argument contain a NON-valid item (rejected, or needing a
+    value-dependent conversion) of exactly the base Python type of a refined
+    scalar trait?  (the ingredient a type-only shortcut gets wrong)"""
+    t = spec[0]
+    if t in BASE_TYPE:
+        return type(v) is BASE_TYPE[t] and classify(spec, v) != VALID
+    if t in ("Either", "Tuple"):
+        if t == "Tuple":
+            return (isinstance(v, tuple) and len(v) == len(spec) - 1
+                    and any(exact_type_trap(s, x) for s, x in zip(spec[1:], v)))
+        return not accepts(spec, v) and any(exact_type_trap(s, v) for s in spec[1:])
+    if t == "List":
+        return isinstance(v, list) and any(exact_type_trap(spec[1], x) for x in list.__iter__(v))
+    if t == "Set":
+        return isinstance(v, set) and any(exact_type_trap(spec[1], x) for x in set.__iter__(v))
+    if t == "Dict":
+        return isinstance(v, dict) and any(exact_type_trap(spec[1], k) or exact_type_trap(spec[2], x)
+                                           for k, x in dict.items(v))
+    return False
 
 
 def has_conv(spec):
@@ -582,7 +852,13 @@ def _gen(spec, rng, want, borrow):
         return XS() if rng.random() < 0.3 else X()
     if t == "Either":
         if want == INVALID:
-            return rng.choice(["x", 2.5, [1], (1,), Y(), 1.0, 2.0])
+            for _ in range(10):
+                m = rng.choice(spec[1:])
+                c = (_gen(m, rng, INVALID, borrow) if rng.random() < 0.6 else
+                     rng.choice(["x", 2.5, [1], (1,), Y(), 1.0, 2.0]))
+                if not accepts(spec, c):
+                    return c
+            return "x"
         s = rng.choice(spec[1:])
         if want == CONV:
             s = [x for x in spec[1:] if has_conv(x)][0]
@@ -1169,8 +1445,11 @@ def valid_default(spec):
         return [[0] * inner[2] for _ in range(spec[2])]
     if inner[0] in ("Dict", "Set"):
         return [({} if inner[0] == "Dict" else set()) for _ in range(spec[2])]
-    first = {"Int": 1, "Float": 0.5, "Str": "a", "Range": 1, "Enum": "red", "Either": 1,
-             "Tuple": (1, "a"), "CInt": 1}[inner[0]]
+    if inner[0] == "Tuple":
+        return [tuple(valid_default(L(m, 1, 1))[0] for m in inner[1:]) for _ in range(spec[2])]
+    first = {"Int": 1, "Float": 0.5, "Str": "a", "Range": 1, "Enum": "red", "Either": 1, "CInt": 1,
+             "Odd": 1, "NonEmpty": "a", "Unit": 0.5, "Lower": "a", "EvenC": 0, "Agreed": True,
+             "SBytes": b"a", "File": FS.get("f1"), "Dir": FS.get("d1"), "String": "a"}[inner[0]]
     return [first for _ in range(spec[2])]
 
 
@@ -1199,6 +1478,23 @@ def _configs():
 
 
 CONFIGS = _configs()
+
+# Own stratum: containers whose inner trait is a value-dependent refinement of
+# a Base scalar trait (user-defined TraitType subclasses and the library's
+# File/Directory(exists=True), String(minlen, maxlen)), alone, inside
+# Tuple/Either, and in nested containers.
+REFINED_CONFIGS = [
+    L(ODD), L(ODD, 1, 3), L(ODD, 2, 2), L(NEST), L(NEST, 0, 2), L(UNIT), L(UNIT, 1, 3), L(LOWER),
+    L(EVENC), L(EVENC, 0, 2), L(AGREED), L(SBYTES), L(FILE), L(FILE, 1, 3), L(DIR), L(STRING),
+    L(("Tuple", ODD, NEST)), L(("Either", ODD, NONE)), L(("Either", NEST, ODD), 0, 3),
+    L(L(ODD)), L(L(NEST, 0, 2), 0, 3), L(L(UNIT, 1, 3)), L(L(FILE, 0, 2)), L(L(LOWER)),
+    L(D(STR, ODD)), L(D(NEST, UNIT), 1, 3), L(S(ODD)), L(S(NEST), 0, 2),
+    D(STR, ODD), D(ODD, STR), D(NEST, UNIT), D(LOWER, ODD), D(STR, FILE), D(DIR, INT), D(STR, AGREED),
+    D(STR, L(ODD)), D(STR, L(NEST, 0, 2)), D(STR, L(UNIT, 1, 3)), D(ODD, L(FILE)), D(STR, S(ODD)),
+    D(STR, D(NEST, ODD)), D(STR, ("Tuple", ODD, NEST)), D(SBYTES, EVENC), D(STRING, UNIT),
+    S(ODD), S(NEST), S(UNIT), S(LOWER), S(EVENC), S(FILE), S(SBYTES), S(STRING),
+    S(("Tuple", ODD, NEST)), S(("Either", ODD, NONE)),
+]
 _CLASSES = {}
 
 
@@ -1220,8 +1516,9 @@ def bounds_tag(spec):
 # --------------------------------------------------------------------------
 
 class History:
-    def __init__(self, ctx, spec, rng, isect=False, flavour="plain"):
+    def __init__(self, ctx, spec, rng, isect=False, flavour="plain", tag=None):
         self.ctx = ctx
+        self.tag = tag              # stratum tag: counters are also kept per stratum
         self.isect = isect
         self.flavour = flavour
         self.spec = spec
@@ -1247,7 +1544,7 @@ class History:
             for _ in range(3):
                 try:
                     self.obj = cls(**{NAME: gen(spec, rng, VALID)})
-                    ctx.count("built_with_keyword")
+                    self.count("built_with_keyword")
                     break
                 except TraitError:
                     pass
@@ -1267,6 +1564,20 @@ class History:
         getattr(obj, NAME)
 
     # -- helpers ---------------------------------------------------------
+    def count(self, name, n=1):
+        self.ctx.count(name, n)
+        if self.tag:
+            self.ctx.count(self.tag + "_" + name, n)
+
+    def trap(self, present, route, outcome):
+        """Stratum bookkeeping: an argument held a non-valid item of exactly
+        the refined trait's base Python type."""
+        if present:
+            self.count("exact_type_trap_ops")
+            self.count("exact_type_trap_" + route)
+            if outcome == "TraitError":
+                self.count("exact_type_trap_rejections")
+
     def populate(self, o):
         for _ in range(3):
             try:
@@ -1289,21 +1600,21 @@ class History:
 
     def owner_state(self, kind):
         """Count and name the owner's state at the time of the operation."""
-        ctx, f = self.ctx, self.flavour
+        f = self.flavour
         if f == "plain":
             return "plain"
-        ctx.count("flavour_%s_ops" % f)
+        self.count("flavour_%s_ops" % f)
         if f == "eq":
             if self.obj == self.other and self.obj is not self.other:
-                ctx.count("equal_owner_ops")
+                self.count("equal_owner_ops")
                 return "eq-equal"
             return "eq-distinct"
         if not self.obj:
-            ctx.count("falsy_owner_ops")
-            ctx.count("falsy_%s_ops" % kind)
-            ctx.count("falsy_%s_owner_ops" % f)
+            self.count("falsy_owner_ops")
+            self.count("falsy_%s_ops" % kind)
+            self.count("falsy_%s_owner_ops" % f)
             return f + "-falsy"
-        ctx.count("truthy_flavoured_ops")
+        self.count("truthy_flavoured_ops")
         return f + "-truthy"
 
     def gen_op(self, tspec, target, top, borrow):
@@ -1354,10 +1665,10 @@ class History:
         try:
             walk_container(self.spec, cur, obj, NAME)
         except Walk as w:
-            self.ctx.count("elements_walked", Counter.n)
+            self.count("elements_walked", Counter.n)
             return self.fail(kind, opname, w.complaint, "at %s: %s" % (w.where, short(w.item)),
                              {"where": w.where, "item": short(w.item)})
-        self.ctx.count("elements_walked", Counter.n)
+        self.count("elements_walked", Counter.n)
         return False
 
     # -- one step ----------------------------------------------------------
@@ -1390,11 +1701,11 @@ class History:
             members = list(set.__iter__(target))
             args = [x for _, x in arg_items(kind, op, tspec)]
             if any(hashable(x) and any(m is not x and m == x for m in members) for x in args):
-                ctx.count("isect_twin_ops")
+                self.count("isect_twin_ops")
         opname = op[0] if where != "stale" else "stale-" + op[0]
         self.ops.append((where,) + tuple(op))
-        ctx.count(where + "_ops" if where != "top" else "top_ops")
-        ctx.count(kind + "_ops")
+        self.count(where + "_ops" if where != "top" else "top_ops")
+        self.count(kind + "_ops")
         ostate = self.owner_state(kind)
 
         # what built-in semantics would do
@@ -1443,10 +1754,13 @@ class History:
                     spec_name(self.spec[1]) + ":" + spec_name(self.spec[2]), bounds_tag(self.spec),
                     where, op[0], argclass, outcome, changed, model_exc is not None, ostate.split("-")[-1])
 
+        if self.tag == "refined" and where != "stale":
+            self.trap(any(exact_type_trap(sp, x) for sp, x in cands),
+                      (kind if where == "top" else "nested") + "_ops", outcome)
         if ostate.endswith("falsy") and outcome == "TraitError":
-            ctx.count("falsy_owner_rejections")
+            self.count("falsy_owner_rejections")
         if ostate == "eq-equal" and any(isinstance(x, TRAIT_CONTAINERS) for _, x in cands):
-            ctx.count("equal_owner_foreign_args")
+            self.count("equal_owner_foreign_args")
         # 1. invariant walk of the current value, after every operation
         if self.walk(kind, opname):
             return True
@@ -1461,9 +1775,9 @@ class History:
         #    the statement says nothing; that is C05-C07's business.)
         violating = model_exc is None and (items_bad or len_bad)
         if exc is not None and outcome != "TraitError" and not violating:
-            ctx.count("builtin_failures_seen")
+            self.count("builtin_failures_seen")
         elif exc is not None:
-            ctx.count("rejections_checked")
+            self.count("rejections_checked")
             same_tree = snap_same(before, after)
             if not same_tree:
                 return self.fail(kind, opname, "changed-on-failure",
@@ -1475,18 +1789,18 @@ class History:
                                  "raised %s yet notifications were delivered: %r" % (outcome, log[:6]),
                                  {"exception": short(exc, 300), "notifications": log[:10]})
         else:
-            ctx.count("ops_succeeded")
+            self.count("ops_succeeded")
             if log:
-                ctx.count("notifications_seen", len(log))
+                self.count("notifications_seen", len(log))
                 for m in set(log):
-                    ctx.count("notif_" + m.split(":")[0] + ("_nested" if m.endswith("items.items") else ""))
+                    self.count("notif_" + m.split(":")[0] + ("_nested" if m.endswith("items.items") else ""))
             if CONV in classes and changed:
-                ctx.count("convertible_items_stored")
+                self.count("convertible_items_stored")
         # 3. direction
         if violating:
-            ctx.count("direction_checked")
+            self.count("direction_checked")
             if len_bad:
-                ctx.count("length_direction_checked")
+                self.count("length_direction_checked")
             if exc is None:
                 return self.fail(kind, opname,
                                  "no-traiterror-for-invalid-item" if items_bad else
@@ -1516,7 +1830,7 @@ class History:
         cls = classify(self.spec, v)
         route = rng.choice(["setattr", "setattr", "trait_set"])
         self.ops.append(("assign", route, how, v if how == "fresh" else plain(v)))
-        ctx.count("assign_ops")
+        self.count("assign_ops")
         ostate = self.owner_state(self.kind)
         before = snap(cur)
         pre = plain(cur)
@@ -1538,14 +1852,16 @@ class History:
         outcome = "ok" if exc is None else ("TraitError" if isinstance(exc, TraitError) else type(exc).__name__)
         ctx.sig(self.kind, "assign", spec_name(self.spec), how, cls, outcome, route, ostate.split("-")[-1])
         kind = self.kind
+        if self.tag == "refined":
+            self.trap(exact_type_trap(self.spec, v), "assign", outcome)
         if ostate.endswith("falsy") and outcome == "TraitError":
-            ctx.count("falsy_owner_rejections")
+            self.count("falsy_owner_rejections")
         if ostate == "eq-equal" and isinstance(v, TRAIT_CONTAINERS):
-            ctx.count("equal_owner_foreign_args")
+            self.count("equal_owner_foreign_args")
         if self.walk(kind, "assign"):
             return True
         if exc is not None:
-            ctx.count("rejections_checked")
+            self.count("rejections_checked")
             if not snap_same(before, snap(newcur)):
                 return self.fail(kind, "assign", "changed-on-failure",
                                  "raised %s yet value went from %s to %s"
@@ -1556,15 +1872,15 @@ class History:
                                  "raised %s yet notifications were delivered: %r" % (outcome, log[:6]),
                                  {"exception": short(exc, 300), "notifications": log[:10]})
         else:
-            ctx.count("ops_succeeded")
+            self.count("ops_succeeded")
             if log:
-                ctx.count("notifications_seen", len(log))
+                self.count("notifications_seen", len(log))
                 for m in set(log):
-                    ctx.count("notif_" + m.split(":")[0] + ("_nested" if m.endswith("items.items") else ""))
+                    self.count("notif_" + m.split(":")[0] + ("_nested" if m.endswith("items.items") else ""))
             if cls == CONV:
-                ctx.count("convertible_items_stored")
+                self.count("convertible_items_stored")
         if cls == INVALID:
-            ctx.count("direction_checked")
+            self.count("direction_checked")
             if exc is None:
                 return self.fail(kind, "assign", "no-traiterror-for-invalid-item",
                                  "an invalid whole value was accepted", {"assigned": short(plain(v), 300)})
@@ -1589,9 +1905,9 @@ class History:
             how = "fresh"
         cls = classify(self.spec, v)
         self.ops.append(("construct", how, v if how == "fresh" else plain(v)))
-        ctx.count("construct_ops")
+        self.count("construct_ops")
         if self.flavour in ("len", "bool"):
-            ctx.count("falsy_construct_ops")
+            self.count("falsy_construct_ops")
         del LOG[:]
         new = None
         try:
@@ -1603,23 +1919,25 @@ class History:
         ctx.ev()
         outcome = "ok" if exc is None else ("TraitError" if isinstance(exc, TraitError) else type(exc).__name__)
         ctx.sig(kind, "construct", spec_name(self.spec), how, cls, outcome, self.flavour)
+        if self.tag == "refined":
+            self.trap(exact_type_trap(self.spec, v), "construct", outcome)
         if new is not None:
             if self.walk(kind, "construct", new):
                 return True
-            ctx.count("ops_succeeded")
+            self.count("ops_succeeded")
             if log:
-                ctx.count("notifications_seen", len(log))
+                self.count("notifications_seen", len(log))
             if cls == CONV:
-                ctx.count("convertible_items_stored")
+                self.count("convertible_items_stored")
         else:
-            ctx.count("rejections_checked")
-            ctx.count("construct_rejections")
+            self.count("rejections_checked")
+            self.count("construct_rejections")
             if log:
                 return self.fail(kind, "construct", "notified-on-failure",
                                  "raised %s yet notifications were delivered: %r" % (outcome, log[:6]),
                                  {"exception": short(exc, 300), "notifications": log[:10]})
         if cls == INVALID:
-            ctx.count("direction_checked")
+            self.count("direction_checked")
             if exc is None:
                 return self.fail(kind, "construct", "no-traiterror-for-invalid-item",
                                  "an invalid whole value was accepted by the constructor",
@@ -1685,19 +2003,20 @@ def grid_ops(rng, spec, n):
     yield ("remove", gen(inner, rng, INVALID))
 
 
-def run_grid(ctx, gi, spec):
+def run_grid(ctx, gi, spec, prefix="grid", maxlen=4, tag=None):
     lo, hi = spec[2], spec[3]
-    for n in range(lo, min(hi, 4) + 1):
-        case = "grid:%d:%d" % (gi, n)
+    for n in range(lo, min(hi, maxlen) + 1):
+        case = "%s:%d:%d" % (prefix, gi, n)
         if not ctx.mine(gi * 7 + n):
             continue
         if not ctx.begin(case, {"config": spec_name(spec), "length": n}):
             continue
         try:
-            rng = ctx.rng("grid", gi, n)
+            rng = ctx.rng(prefix, gi, n)
             ops = list(grid_ops(rng, spec, n))
             for k, op in enumerate(ops):
-                h = History(ctx, spec, ctx.rng("grid", gi, n, "h"), flavour=FLAVOURS[(gi + n + k) % len(FLAVOURS)])
+                h = History(ctx, spec, ctx.rng(prefix, gi, n, "h"), flavour=FLAVOURS[(gi + n + k) % len(FLAVOURS)],
+                            tag=tag)
                 items = [gen(spec[1], rng, VALID) for _ in range(n)]
                 try:
                     setattr(h.obj, NAME, items)
@@ -1711,7 +2030,7 @@ def run_grid(ctx, gi, spec):
                     if not n:
                         continue
                     op = ("remove", list.__getitem__(cur, 0 if op[1] == "first" else n - 1))
-                ctx.count("grid_cases")
+                h.count("grid_cases")
                 if h.step(forced=op):
                     break
         finally:
@@ -1725,7 +2044,9 @@ def run_grid(ctx, gi, spec):
 def selftest(ctx):
     rng = ctx.rng("selftest")
     n = 0
-    for spec in [INT, FLOAT, STR, RNG, ENUM, INST, INSTN, EITH, TUP, CINT]:
+    for spec in [INT, FLOAT, STR, RNG, ENUM, INST, INSTN, EITH, TUP, CINT, ODD, NEST, UNIT, LOWER, EVENC,
+                 AGREED, SBYTES, FILE, DIR, STRING, ("Tuple", ODD, NEST), ("Either", ODD, NONE),
+                 ("Either", NEST, ODD)]:
         for want in (VALID, CONV, INVALID):
             for _ in range(40):
                 v = gen(spec, rng, want)
@@ -1749,8 +2070,10 @@ def selftest(ctx):
 def run(ctx):
     push_exception_handler(handler=lambda *a: HANDLER_EXC.append(a), reraise_exceptions=False, main=True)
     obs_push_exception_handler(handler=lambda e: HANDLER_EXC.append(e), reraise_exceptions=False)
+    setup_refined_pools()
     selftest(ctx)
     ctx.note("configurations", [spec_name(s) for s in CONFIGS])
+    ctx.note("refined_configurations", [spec_name(s) for s in REFINED_CONFIGS])
 
     # ---- deterministic grid (lists) ----------------------------------------
     for gi, spec in enumerate(CONFIGS):
@@ -1781,6 +2104,32 @@ def run(ctx):
                 ctx.sample({"config": spec_name(spec), "owner": flavour,
                             "history": [short(show(o), 200) for o in h.ops[:6]],
                             "final": short(plain(getattr(h.obj, NAME)), 200)})
+        finally:
+            ctx.end()
+    # ---- stratum: value-dependent refinements of the Base scalar traits --------
+    for gi, spec in enumerate(REFINED_CONFIGS):
+        if spec[0] == "List":
+            run_grid(ctx, gi, spec, prefix="rgrid", maxlen=2, tag="refined")
+    for hno in range(ctx.scale(3600, 90000)):
+        if not ctx.mine(hno):
+            continue
+        spec = REFINED_CONFIGS[hno % len(REFINED_CONFIGS)]
+        flavour = FLAVOURS[(hno // len(REFINED_CONFIGS)) % len(FLAVOURS)]
+        if not ctx.begin("r:%d" % hno, {"config": spec_name(spec), "owner": flavour}):
+            continue
+        try:
+            h = History(ctx, spec, ctx.rng("r", hno), flavour=flavour, tag="refined")
+            h.attach_raw()
+            if h.walk(h.kind, "initial"):
+                continue
+            for _ in range(nops):
+                h.count("history_ops")
+                if h.step():
+                    break
+            if hno // ctx.nshards < 1:
+                ctx.sample({"config": spec_name(spec), "owner": flavour,
+                            "history": [short(show(o), 200) for o in h.ops[:6]],
+                            "final": short(plain(getattr(h.obj, NAME)), 200)}, cap=6)
         finally:
             ctx.end()
     # ---- stratum: intersection with equal-but-not-identical operands ---------
